@@ -71,6 +71,7 @@ def build_algebra(config, **override):
         return Algebra.fromname(named, **kw)
     form = config.get("ctor") or ctor_form(config)
     CTOR_COUNTS[form] = CTOR_COUNTS.get(form, 0) + 1
+    _sibling_first(kw)
     if form == "ndarray" and "signature" in kw:
         # the signature handed over as an ndarray which the caller re-uses (overwrites in place) afterwards
         import numpy as np
@@ -91,6 +92,32 @@ def build_algebra(config, **override):
 
 
 CTOR_COUNTS = {}
+
+
+def _sibling_first(kw):
+    """Another algebra of the same signature and start index but with the OTHER basis spelling is created (and used once) just
+    before the algebra a check asks for: the plain one before every custom-basis algebra, one with every blade spelled backwards
+    (e21, e321) before 1 in 5 plain ones (d <= 6; a pure function of the signature).  Algebras are independent objects, so this
+    changes nothing on a correct tree; anything shared between algebras at module level but keyed by less than the full
+    configuration (seeded C09-11: sign tables cached per signature) then reaches the independent oracles of every check."""
+    sig = kw.get("signature")
+    if sig is None or not 2 <= len(sig) <= 6:
+        return
+    sig = [int(v) for v in sig]
+    base = {"signature": list(sig)}
+    if kw.get("start_index") is not None:
+        base["start_index"] = kw["start_index"]
+    if kw.get("basis"):
+        sib = Algebra(**base)
+        CTOR_COUNTS["sibling:plain-first"] = CTOR_COUNTS.get("sibling:plain-first", 0) + 1
+    elif sum((i + 3) * (v + 2) for i, v in enumerate(sig)) % 5 == 0:
+        names = list(Algebra(**base).canon2bin)
+        sib = Algebra(basis=[n[0] + n[1:][::-1] for n in names], **base)
+        CTOR_COUNTS["sibling:custom-first"] = CTOR_COUNTS.get("sibling:custom-first", 0) + 1
+    else:
+        return
+    e = sib.blades[list(sib.canon2bin)[-1]]
+    e * e
 
 
 def ctor_form(config):
